@@ -34,6 +34,14 @@ CLEAN_STMTS = [
     "1 + 2 * i; [1, 2, i]; map {{1: i}}; a[0]; f(i); -i; !i; i && 1; i || 2; if i {{ 1 }} else {{ 2 }}; match i {{ 1 => 1, _ => 2 }};",
     "let s = \"x\" + \"y\"; let t = [s, s]; let u = map {{s: t}}; len(t);",
     "if i % 2 == 0 {{ }} else {{ }}; match i {{ 0 => {{ }}, _ => {{ let q = 1; }} }}; if i {{ {{ 1 }} }};",
+    # match over every kind of literal pattern (one value each), alternatives, ranges, hits and misses
+    "match byte(97 + i % 4) {{ b'a' | b'e' => 1, b'b' => {{ 2 }}, _ => 3 }}; match byte(i % 3) {{ b'a'..b'z' => 1, _ => {{ }} }};",
+    "match char(97 + i % 4) {{ 'a' | 'e' | 'i' => 1, 'b'..='c' => {{ 2 }}, _ => 3 }}; match 'q' {{ 'a' => 1, 'b' => 2, 'c' => 3 }};",
+    "match str(i % 3) {{ \"0\" | \"1\" => 1, \"2\" => {{ }}, _ => 3 }}; match \"zz\" {{ \"a\" => 1, \"b\" | \"c\" | \"d\" => 2 }};",
+    "match i % 2 == 0 {{ true => 1, false => {{ 2 }} }}; match true {{ false => 0 }}; match i {{ 1 | 2 | 3 | 4 | 5 | 6 | 7 | 8 => 1, 9..20 | 30..=40 => 2, _ => 3 }};",
+    "match null {{ _ => {{ }} }}; match [i] {{ _ => 1 }}; match i * 1.5 {{ _ => 2 }};",
+    "let mm = match byte(i % 2) {{ b'a' => {{ if {C} {{ {K}; }} 1 }}, _ => 2 }};",
+    "map {{i % 7: 1, i % 5: 2, 1: 3, 1.0: 4}}; map {{1: 1, 1: 2, 1: 3}}; [map {{\"k\": i, \"k\": i}}, 1];",
 ]
 DIRTY_STMTS = [
     "1 + if {C} {{ {K}; }} else {{ 2 }};",
